@@ -170,7 +170,8 @@ Print Assumptions C15_horner_rounding_bound_binary64.
    rnd p0 and rnd v0, i.e. exactly p0 and v0 when these are numbers of the format (C15_traj3_start_exact).
    Quintic (C15_traj5_end_rounding_bound): 1056 eps S5, 3960 eps S5/|ts|, 11880 eps S5/|ts|^2 for position, velocity,
    acceleration, under the additional hypothesis rnd 2 = 2 (the divisor of the constant 1/2; true for binary64).
-   NOT proved: the septic generator; the step from the rounded-real term to the C's binary64 run (as before).
+   The septic generator: see the last section of this file (C15_traj7_*).  NOT proved: the step from the rounded-real term to
+   the C's binary64 run (as before).
    Non-vacuity: TrajRound.traj3_end_id (identity rounding: end values exact), traj3_end_scale20 (the inexact model
    rnd v = v (1 + 2^-20) satisfies all hypotheses), traj3_end_binary64_ex (binary64, ts = 2, 0 -> 10: within 2^-40). *)
 From LibaV Require Import C15.TrajRound.
@@ -258,3 +259,125 @@ Theorem C15_traj5_end_rounding_bound_binary64 : forall ts p0 p1 v0 v1 a0 a1, ts 
       + 49920 * eta64 * ((1 + / Rabs ts) ^ 5 * (1 + Rabs ts) ^ 3 * (1 + Rabs (p1 - p0) + Rabs v0 + Rabs v1 + Rabs a0 + Rabs a1)).
 Proof. exact traj5_end_rounding_bound_binary64. Qed.
 Print Assumptions C15_traj5_end_rounding_bound_binary64.
+
+(* ================================================================ END-TO-END ROUNDING ERROR OF THE GENERATED SEPTIC TRAJECTORY
+   (C15/TrajRound7.v).  Same standard model (overflow excluded), same reading as for the cubic and the quintic: the eight
+   coefficients are COMPUTED by the generator term with every operation, every integer constant and the two constants
+   (a_real)(1.0/2), (a_real)(1.0/6) rounded, then position / velocity / acceleration / jerk are evaluated at t = ts by the rounded
+   Horner term (with the rounded factors k, k(k-1), k(k-1)(k-2) of the derivative coefficients) - the model terms of
+   a_trajpoly7_gen, a_trajpoly7_pos/_vel/_acc/_jer instantiated at Rnd_ops rnd - and compared with the REQUESTED end values.
+   For every rounding with eps <= 2^-20, eta <= 1, rnd 2 = 2, rnd 6 = 6 (the divisors of the two constants; the quotient 1/6 is
+   rounded and counted), every duration ts <> 0 and all real boundary data, T = |ts|,
+   S7 = |p0| + |p1| + T(|v0|+|v1|) + T^2(|a0|+|a1|) + T^3(|j0|+|j1|), W = 1 + |p1-p0| + |v0| + |v1| + |a0| + |a1| + |j0| + |j1|:
+       |pos(ts) - p1| <=   9030 eps S7       + 10^6   eta (1+1/T)^7 (1+T)^7 W
+       |vel(ts) - v1| <=  48160 eps S7 / T   + 4 10^6 eta (1+1/T)^7 (1+T)^6 W
+       |acc(ts) - a1| <= 216720 eps S7 / T^2 + 3 10^7 eta (1+1/T)^7 (1+T)^5 W
+       |jer(ts) - j1| <= 794640 eps S7 / T^3 + 3 10^8 eta (1+1/T)^7 (1+T)^4 W
+   (sharper weighted form, 43 eps times the all-signs-positive value of the exact formulas: C15_traj7_end_rounding_weighted;
+   per coefficient: C15_traj7_coeff_rounding).  At t = 0 position and velocity are rnd p0, rnd v0 (exact for format numbers,
+   C15_traj7_start_exact); acceleration and jerk are within 7 eps |a0|, 9 eps |j0| of a0, j0 (C15_traj7_start_rounding_bound).
+   NOT proved: the step from the rounded-real term to the C's binary64 run (as before); that acceleration at 0 is exactly a0
+   in binary64 (true barring underflow, needs the exactness of the products by 1/2 and 2).
+   Non-vacuity: TrajRound7.traj7_end_id (identity rounding: the four end values exact), traj7_end_keep26 (an inexact model
+   with rnd 2 = 2, rnd 6 = 6 satisfies all hypotheses), traj7_end_binary64_ex (binary64, ts = 2, 0 -> 10 with non-zero
+   velocities, accelerations and jerk: the four end values within 2^-30). *)
+From LibaV Require Import C15.TrajRound7.
+
+Theorem C15_traj7_end_rounding_bound : forall (rnd : R -> R) (eps eta : R), std_model rnd eps eta -> eps <= / 1048576 -> eta <= 1 ->
+  rnd 2 = 2 -> rnd 6 = 6 ->
+  forall ts p0 p1 v0 v1 a0 a1 j0 j1, ts <> 0 ->
+  let c := trajpoly7_gen (Rnd_ops rnd) ts p0 p1 v0 v1 a0 a1 j0 j1 in
+  let S := Rabs p0 + Rabs p1 + Rabs ts * (Rabs v0 + Rabs v1) + Rabs ts ^ 2 * (Rabs a0 + Rabs a1) + Rabs ts ^ 3 * (Rabs j0 + Rabs j1) in
+  let W := 1 + Rabs (p1 - p0) + Rabs v0 + Rabs v1 + Rabs a0 + Rabs a1 + Rabs j0 + Rabs j1 in
+  exists pr vr ar jr, traj_pos (Rnd_ops rnd) c ts = Some pr /\ traj_vel (Rnd_ops rnd) c ts = Some vr /\
+    traj_acc (Rnd_ops rnd) c ts = Some ar /\ traj_jer (Rnd_ops rnd) c ts = Some jr /\
+    Rabs (pr - p1) <= 9030 * eps * S + 1000000 * eta * ((1 + / Rabs ts) ^ 7 * (1 + Rabs ts) ^ 7 * W) /\
+    Rabs (vr - v1) <= 48160 * eps * (S / Rabs ts) + 4000000 * eta * ((1 + / Rabs ts) ^ 7 * (1 + Rabs ts) ^ 6 * W) /\
+    Rabs (ar - a1) <= 216720 * eps * (S / Rabs ts ^ 2) + 30000000 * eta * ((1 + / Rabs ts) ^ 7 * (1 + Rabs ts) ^ 5 * W) /\
+    Rabs (jr - j1) <= 794640 * eps * (S / Rabs ts ^ 3) + 300000000 * eta * ((1 + / Rabs ts) ^ 7 * (1 + Rabs ts) ^ 4 * W).
+Proof. exact traj7_end_rounding_bound. Qed.
+Print Assumptions C15_traj7_end_rounding_bound.
+
+Theorem C15_traj7_end_rounding_bound_binary64 : forall ts p0 p1 v0 v1 a0 a1 j0 j1, ts <> 0 ->
+  let c := trajpoly7_gen (Rnd_ops rnd64) ts p0 p1 v0 v1 a0 a1 j0 j1 in
+  let S := Rabs p0 + Rabs p1 + Rabs ts * (Rabs v0 + Rabs v1) + Rabs ts ^ 2 * (Rabs a0 + Rabs a1) + Rabs ts ^ 3 * (Rabs j0 + Rabs j1) in
+  let W := 1 + Rabs (p1 - p0) + Rabs v0 + Rabs v1 + Rabs a0 + Rabs a1 + Rabs j0 + Rabs j1 in
+  exists pr vr ar jr, traj_pos (Rnd_ops rnd64) c ts = Some pr /\ traj_vel (Rnd_ops rnd64) c ts = Some vr /\
+    traj_acc (Rnd_ops rnd64) c ts = Some ar /\ traj_jer (Rnd_ops rnd64) c ts = Some jr /\
+    Rabs (pr - p1) <= 9030 * eps64 * S + 1000000 * eta64 * ((1 + / Rabs ts) ^ 7 * (1 + Rabs ts) ^ 7 * W) /\
+    Rabs (vr - v1) <= 48160 * eps64 * (S / Rabs ts) + 4000000 * eta64 * ((1 + / Rabs ts) ^ 7 * (1 + Rabs ts) ^ 6 * W) /\
+    Rabs (ar - a1) <= 216720 * eps64 * (S / Rabs ts ^ 2) + 30000000 * eta64 * ((1 + / Rabs ts) ^ 7 * (1 + Rabs ts) ^ 5 * W) /\
+    Rabs (jr - j1) <= 794640 * eps64 * (S / Rabs ts ^ 3) + 300000000 * eta64 * ((1 + / Rabs ts) ^ 7 * (1 + Rabs ts) ^ 4 * W).
+Proof. exact traj7_end_rounding_bound_binary64. Qed.
+Print Assumptions C15_traj7_end_rounding_bound_binary64.
+
+(* the sharper form: 43 eps times the weighted magnitude the algebra gives, in terms of |p1 - p0| *)
+Theorem C15_traj7_end_rounding_weighted : forall (rnd : R -> R) (eps eta : R), std_model rnd eps eta -> eps <= / 1048576 -> eta <= 1 ->
+  rnd 2 = 2 -> rnd 6 = 6 ->
+  forall ts p0 p1 v0 v1 a0 a1 j0 j1, ts <> 0 ->
+  let c := trajpoly7_gen (Rnd_ops rnd) ts p0 p1 v0 v1 a0 a1 j0 j1 in
+  let T := Rabs ts in let P := Rabs (p1 - p0) in
+  let W := 1 + P + Rabs v0 + Rabs v1 + Rabs a0 + Rabs a1 + Rabs j0 + Rabs j1 in
+  exists pr vr ar jr, traj_pos (Rnd_ops rnd) c ts = Some pr /\ traj_vel (Rnd_ops rnd) c ts = Some vr /\
+    traj_acc (Rnd_ops rnd) c ts = Some ar /\ traj_jer (Rnd_ops rnd) c ts = Some jr /\
+    Rabs (pr - p1) <= 43 * eps * (Rabs p0 + 209 * P + T * (112 * Rabs v0 + 98 * Rabs v1) + T ^ 2 * (25 * Rabs a0 + 18 * Rabs a1)
+                                  + T ^ 3 * (8 / 3 * Rabs j0 + 4 / 3 * Rabs j1))
+                      + 1000000 * eta * ((1 + / T) ^ 7 * (1 + T) ^ 7 * W) /\
+    Rabs (vr - v1) <= 43 * eps * (592 * Rabs v0 + 529 * Rabs v1 + T * (130 * Rabs a0 + 98 * Rabs a1)
+                                  + T ^ 2 * (40 / 3 * Rabs j0 + 22 / 3 * Rabs j1) + 1120 * (P / T))
+                      + 4000000 * eta * ((1 + / T) ^ 7 * (1 + T) ^ 6 * W) /\
+    Rabs (ar - a1) <= 43 * eps * (570 * Rabs a0 + 449 * Rabs a1 + T * (56 * Rabs j0 + 34 * Rabs j1)
+                                  + (2640 * Rabs v0 + 2400 * Rabs v1) / T + 5040 * (P / T ^ 2))
+                      + 30000000 * eta * ((1 + / T) ^ 7 * (1 + T) ^ 5 * W) /\
+    Rabs (jr - j1) <= 43 * eps * (192 * Rabs j0 + 129 * Rabs j1 + (2040 * Rabs a0 + 1680 * Rabs a1) / T
+                                  + (9600 * Rabs v0 + 8880 * Rabs v1) / T ^ 2 + 18480 * (P / T ^ 3))
+                      + 300000000 * eta * ((1 + / T) ^ 7 * (1 + T) ^ 4 * W).
+Proof. exact traj7_end_rounding_weighted. Qed.
+Print Assumptions C15_traj7_end_rounding_weighted.
+
+(* the six computed coefficients against the exact ones (c0 = p0 and c1 = v0 are stored as given); the magnitudes are the
+   exact coefficient formulas of trajpoly7_gen R_ops with every sign made positive *)
+Theorem C15_traj7_coeff_rounding : forall (rnd : R -> R) (eps eta : R), std_model rnd eps eta -> eps <= / 1048576 -> eta <= 1 ->
+  rnd 2 = 2 -> rnd 6 = 6 ->
+  forall ts p0 p1 v0 v1 a0 a1 j0 j1, ts <> 0 ->
+  let ch := trajpoly7_gen (Rnd_ops rnd) ts p0 p1 v0 v1 a0 a1 j0 j1 in
+  let cx := trajpoly7_gen R_ops ts p0 p1 v0 v1 a0 a1 j0 j1 in
+  let u := / Rabs ts in let P := Rabs (p1 - p0) in
+  let V0 := Rabs v0 in let V1 := Rabs v1 in let A0 := Rabs a0 in let A1 := Rabs a1 in let J0 := Rabs j0 in let J1 := Rabs j1 in
+  let W := 1 + P + V0 + V1 + A0 + A1 + J0 + J1 in
+  length ch = 8%nat /\ nth 0 ch 0 = p0 /\ nth 1 ch 0 = v0 /\ nth 2 cx 0 = a0 * (1 / 2) /\ nth 3 cx 0 = j0 * (1 / 6) /\
+  Rabs (nth 2 ch 0 - nth 2 cx 0) <= 4 * eps * (A0 * / 2) + 4 * eta * W /\
+  Rabs (nth 3 ch 0 - nth 3 cx 0) <= 4 * eps * (J0 * / 6) + 4 * eta * W /\
+  Rabs (nth 4 ch 0 - nth 4 cx 0)
+    <= 20 * eps * (/ 6 * (u * (4 * J0 + J1) + u ^ 2 * (15 * A1 + 30 * A0) + u ^ 3 * (120 * V0 + 90 * V1) + u ^ 4 * P * 210))
+       + 20000 * eta * ((1 + u) ^ 4 * W) /\
+  Rabs (nth 5 ch 0 - nth 5 cx 0)
+    <= 23 * eps * (/ 2 * (u ^ 2 * (2 * J0 + J1) + u ^ 3 * (20 * A0 + 14 * A1) + u ^ 4 * (90 * V0 + 78 * V1) + u ^ 5 * P * 168))
+       + 40000 * eta * ((1 + u) ^ 5 * W) /\
+  Rabs (nth 6 ch 0 - nth 6 cx 0)
+    <= 26 * eps * (/ 6 * (u ^ 3 * (4 * J0 + 3 * J1) + u ^ 4 * (39 * A1 + 45 * A0) + u ^ 5 * (216 * V0 + 204 * V1) + u ^ 6 * P * 420))
+       + 200000 * eta * ((1 + u) ^ 6 * W) /\
+  Rabs (nth 7 ch 0 - nth 7 cx 0)
+    <= 29 * eps * (/ 6 * (u ^ 4 * (J0 + J1) + u ^ 5 * (A0 + A1) * 12 + u ^ 6 * (V0 + V1) * 60 + u ^ 7 * P * 120))
+       + 200000 * eta * ((1 + u) ^ 7 * W).
+Proof. exact traj7_coeff_rounding. Qed.
+Print Assumptions C15_traj7_coeff_rounding.
+
+Theorem C15_traj7_start_exact : forall (rnd : R -> R) (eps eta : R), std_model rnd eps eta ->
+  forall ts p0 p1 v0 v1 a0 a1 j0 j1,
+  let c := trajpoly7_gen (Rnd_ops rnd) ts p0 p1 v0 v1 a0 a1 j0 j1 in
+  nth 0 c 0 = p0 /\ nth 1 c 0 = v0 /\
+  traj_pos (Rnd_ops rnd) c 0 = Some (rnd p0) /\ traj_vel (Rnd_ops rnd) c 0 = Some (rnd v0) /\
+  (rnd p0 = p0 -> traj_pos (Rnd_ops rnd) c 0 = Some p0) /\ (rnd v0 = v0 -> traj_vel (Rnd_ops rnd) c 0 = Some v0).
+Proof. exact traj7_start_exact. Qed.
+Print Assumptions C15_traj7_start_exact.
+
+Theorem C15_traj7_start_rounding_bound : forall (rnd : R -> R) (eps eta : R), std_model rnd eps eta -> eps <= / 1048576 -> eta <= 1 ->
+  rnd 2 = 2 -> rnd 6 = 6 ->
+  forall ts p0 p1 v0 v1 a0 a1 j0 j1,
+  let c := trajpoly7_gen (Rnd_ops rnd) ts p0 p1 v0 v1 a0 a1 j0 j1 in
+  exists ar jr, traj_acc (Rnd_ops rnd) c 0 = Some ar /\ traj_jer (Rnd_ops rnd) c 0 = Some jr /\
+    Rabs (ar - a0) <= 7 * eps * Rabs a0 + 16 * eta * (1 + Rabs a0) /\
+    Rabs (jr - j0) <= 9 * eps * Rabs j0 + 64 * eta * (1 + Rabs j0).
+Proof. exact traj7_start_rounding_bound. Qed.
+Print Assumptions C15_traj7_start_rounding_bound.
